@@ -202,10 +202,18 @@ static void sb_events(vh_sb *state) {
     nspawn = ntemp = 0;
 }
 
+/* one private directory per process; the files and directories a script creates are removed at its end */
+static char *made[4096]; static int nmade;
+static void made_add(const char *name) { if (nmade < 4096) made[nmade++] = strdup(name); }
+static void cleanup_workdir(void) { if (workdir[0] && !chdir(topdir)) rm_rf(workdir); }
 static void vh_begin(void) {
-    if (!topdir[0] && !getcwd(topdir, sizeof(topdir))) { perror("getcwd"); exit(2); }
-    snprintf(workdir, sizeof(workdir), "%s/conf-%d-XXXXXX", topdir, (int) getpid());
-    if (!mkdtemp(workdir) || chdir(workdir)) { perror("mkdtemp"); exit(2); }
+    if (!topdir[0]) {
+        if (!getcwd(topdir, sizeof(topdir))) { perror("getcwd"); exit(2); }
+        snprintf(workdir, sizeof(workdir), "%s/conf-%d-XXXXXX", topdir, (int) getpid());
+        if (!mkdtemp(workdir)) { perror("mkdtemp"); exit(2); }
+        atexit(cleanup_workdir);
+    }
+    if (chdir(workdir)) { perror("chdir"); exit(2); }
     calls_reset(); token = 0; inv_fail = NULL; inited = 0;
     nspawn = ntemp = 0;
 }
@@ -213,8 +221,12 @@ static void vh_begin(void) {
 static void vh_end(void) {
     if (inited) { spifconf_free_subsystem(); inited = 0; }
     calls_reset();
-    if (chdir(topdir)) { perror("chdir"); exit(2); }
-    rm_rf(workdir);
+    if (chdir(workdir)) { perror("chdir"); exit(2); }
+    while (nmade > 0) {
+        char *n = made[--nmade];
+        if (unlink(n)) rm_rf(n);
+        free(n);
+    }
 }
 
 static const char *vh_step(const vh_step_t *st, vh_sb *ret, vh_sb *state) {
@@ -225,22 +237,28 @@ static const char *vh_step(const vh_step_t *st, vh_sb *ret, vh_sb *state) {
         spifconf_init_subsystem();
         inited = 1;
         sb_bool(ret, 1);
+#ifdef CONF_WRAP
         sb_reset(state); sb_snap(state);
+#endif
     } else if (!strcmp(op, "free")) {
         spifconf_free_subsystem();
         inited = 0;
         sb_int(ret, (long) vh_heap() - (long) heap_at_init);
+#ifdef CONF_WRAP
         sb_reset(state); sb_snap(state);
+#endif
     } else if (!strcmp(op, "file")) {
         size_t n; char *name = argstr(st->args[0]); unsigned char *data = vh_bytes(st->args[1], &n, 0);
         int fd = open(name, O_WRONLY | O_CREAT | O_TRUNC, 0644);
         if (fd < 0 || write(fd, data, n) != (ssize_t) n) { perror(name); exit(2); }
         close(fd);
+        made_add(name);
         free(name); free(data);
         sb_bool(ret, 1);
     } else if (!strcmp(op, "mkdir")) {
         char *name = argstr(st->args[0]);
         sb_bool(ret, mkdir(name, 0755) == 0);
+        made_add(name);
         free(name);
     } else if (!strcmp(op, "setenv")) {
         char *name = argstr(st->args[0]), *val = argstr(st->args[1]);
